@@ -949,6 +949,11 @@ class Evaluator:
             left = right
         return tm.land(outs)
 
+    def e_Slice(self, e, fr):
+        return T("sliceobj", (self.expr(e.lower, fr) if e.lower is not None else None,
+                              self.expr(e.upper, fr) if e.upper is not None else None,
+                              self.expr(e.step, fr) if e.step is not None else None))
+
     def e_Subscript(self, e, fr):
         base = self.expr(e.value, fr)
         if isinstance(e.slice, ast.Slice):
@@ -1171,11 +1176,20 @@ class Evaluator:
                                   for h in sub.hazards)
         fr.summary.calls.extend((c[0], c[1], c[2], c[3], tuple(fr.guard) + tuple(c[4]),
                                  tuple(fr.facts) + tuple(c[5] if len(c) > 5 else ())) for c in sub.calls)
-        for ex in sub.raises():
+        # exits form an ordered decision list: the negation of a raise guard is a fact for the caller only while no
+        # (conditional) return precedes it in the callee
+        seen_return = False
+        nret = len(sub.returns())
+        for ex in sub.exits:
+            if ex.kind == "return":
+                nret -= 1
+                if nret > 0 or tm.land(list(ex.guard)) is not True:
+                    seen_return = True
+                continue
             fr.summary.exits.append(Exit(tuple(fr.guard) + ex.guard, "raise", ex.value, ex.node, ex.func, ex.exc,
                                          facts=tuple(fr.facts) + ex.facts))
             g = tm.land(list(ex.guard))
-            if g is not True:
+            if g is not True and not seen_return:
                 fr.facts.append(tm.lnot(g))
         return sub.value()
 
